@@ -23,6 +23,7 @@ import (
 	"strconv"
 	"strings"
 	"sync"
+	"sync/atomic"
 	"testing"
 	"testing/synctest"
 	"time"
@@ -69,11 +70,55 @@ type Override struct {
 	Beh  Beh    `json:"beh"`
 }
 
+// VBeh: how the node's version endpoint answers one request (fake ms, or never).
+type VBeh struct {
+	Hang  bool   `json:"hang,omitempty"`
+	Delay uint64 `json:"delay,omitempty"`
+}
+
 type Node struct {
 	Client  string     `json:"client"`          // lighthouse | lodestar | prysm | teku | nimbus | unknown
 	Style   int        `json:"style,omitempty"` // rendering of the version string / kind of "unknown"
 	Default Beh        `json:"default"`
 	Over    []Override `json:"over,omitempty"`
+	// Ver[0]: the version requests (NodeVersion) made to the node before it has been handed the payload
+	// of the observed submission; Ver[1]: those made afterwards (the error classifiers').  Missing =
+	// answered at once.  Ignored (and cleared by normalise) for a node without a version endpoint.
+	Ver []VBeh `json:"ver,omitempty"`
+}
+
+func (nd Node) hasVersionEndpoint() bool { return !(nd.Client == "unknown" && nd.Style%3 == 2) }
+
+func (nd Node) ver(phase int) VBeh {
+	if phase < len(nd.Ver) && nd.hasVersionEndpoint() {
+		return nd.Ver[phase]
+	}
+	return VBeh{}
+}
+
+// normalise: the canonical form of an input (what the Gallina term is printed from).
+func normalise(in Input) Input {
+	for i := range in.Nodes {
+		nd := &in.Nodes[i]
+		if !nd.hasVersionEndpoint() {
+			nd.Ver = nil
+		}
+		if len(nd.Ver) > 2 {
+			nd.Ver = nd.Ver[:2]
+		}
+		for len(nd.Ver) > 0 && nd.Ver[len(nd.Ver)-1] == (VBeh{}) {
+			nd.Ver = nd.Ver[:len(nd.Ver)-1]
+		}
+		for k := range nd.Ver {
+			if nd.Ver[k].Hang {
+				nd.Ver[k].Delay = 0
+			}
+		}
+		if len(nd.Ver) == 0 {
+			nd.Ver = nil
+		}
+	}
+	return in
 }
 
 type Input struct {
@@ -100,12 +145,15 @@ type CutRec struct {
 }
 
 type Obs struct {
-	Panic   bool     `json:"panic,omitempty"`
-	PanicAt string   `json:"panic_text,omitempty"`
-	Success bool     `json:"success"`
-	Ret     uint64   `json:"ret"`
-	Order   []int    `json:"order,omitempty"`
-	Nodes   [][]Call `json:"nodes,omitempty"`
+	Panic   bool   `json:"panic,omitempty"`
+	PanicAt string `json:"panic_text,omitempty"`
+	Success bool   `json:"success"`
+	Ret     uint64 `json:"ret"`
+	// the submission (or a warm-up submission before it) had not returned when every scripted answer
+	// that is ever given had been given (Ret is then that instant, far beyond the timeout)
+	NoReturn bool     `json:"no_return,omitempty"`
+	Order    []int    `json:"order,omitempty"`
+	Nodes    [][]Call `json:"nodes,omitempty"`
 	// per node: the instants at which a request to it was abandoned because the context vouch made
 	// it with was finished (refused at entry or cut short while in flight), before the scenario's end
 	Cut [][]CutRec `json:"cut,omitempty"`
@@ -244,6 +292,7 @@ type nodeCore struct {
 	spec     Node
 	proposal *api.VersionedSignedProposal
 	firstSeq int
+	reached  bool // the node has been handed (a part of) the payload of the current submission
 	calls    []Call
 	cuts     []CutRec
 }
@@ -282,6 +331,7 @@ func (n *nodeCore) do(ctx context.Context, ids []uint64) error {
 		n.rec.mu.Unlock()
 		return errors.New("scenario over")
 	}
+	n.reached = true
 	// The node honours the request context in every method the way the HTTP client does: a request
 	// made with a finished context fails with the context's error without reaching the node ...
 	if err := ctx.Err(); err != nil {
@@ -416,13 +466,43 @@ type nodeV struct{ *nodeCore }
 
 func (n nodeV) NodeVersion(ctx context.Context, _ *api.NodeVersionOpts) (*api.Response[string], error) {
 	n.rec.mu.Lock()
-	if !n.rec.closed && !n.rec.warming {
+	if n.rec.closed {
+		n.rec.mu.Unlock()
+		return nil, errors.New("scenario over")
+	}
+	if !n.rec.warming {
 		n.touchLocked()
 	}
+	phase := 0
+	if n.reached {
+		phase = 1
+	}
+	vb := n.spec.ver(phase)
 	n.rec.mu.Unlock()
 	if err := ctx.Err(); err != nil {
 		// a version request made with a finished context fails like any other request
+		n.noteCut(vb.Hang)
 		return nil, err
+	}
+	// the version endpoint has a latency of its own (it is a request to the node like any other) ...
+	if vb.Hang {
+		select {
+		case <-ctx.Done():
+			n.noteCut(true)
+			return nil, ctx.Err()
+		case <-n.rec.release:
+			return nil, errors.New("scenario over")
+		}
+	}
+	if vb.Delay > 0 {
+		tm := time.NewTimer(time.Duration(vb.Delay) * time.Millisecond)
+		select {
+		case <-tm.C:
+		case <-ctx.Done():
+			tm.Stop()
+			n.noteCut(false)
+			return nil, ctx.Err()
+		}
 	}
 	if n.spec.Client == "unknown" && n.spec.Style%3 == 1 {
 		return nil, errors.New("node version unavailable")
@@ -505,6 +585,9 @@ func horizon(in Input) time.Duration {
 			}
 		}
 		total += m
+		for _, v := range nd.Ver {
+			total += v.Delay
+		}
 	}
 	return time.Duration(total) * time.Millisecond
 }
@@ -608,13 +691,32 @@ func runSubmit(t *testing.T, in Input) Obs {
 		// A submission must not depend on what earlier submissions on the same service left behind
 		// (goroutines still waiting for a hanging or slow node): the warm-up calls are not recorded
 		// and the observed call is compared with the model of a single, independent submission.
+		// The submission runs in a goroutine of its own: a Submit<Kind> that has not returned by the time
+		// every scripted answer that is ever given has been given is reported as such (it can only be
+		// waiting for a node that never answers) instead of blocking the scenario.
+		pending := []chan error{}
+		within := func() (error, bool) {
+			ch := make(chan error, 1)
+			go func() { ch <- submit() }()
+			tm := time.NewTimer(horizon(in))
+			select {
+			case err := <-ch:
+				tm.Stop()
+				return err, true
+			case <-tm.C:
+				pending = append(pending, ch)
+				return nil, false
+			}
+		}
+		stuck := false
 		if in.Warm > 0 {
 			rec.mu.Lock()
 			rec.warming = true
 			rec.mu.Unlock()
-			for k := 0; k < in.Warm; k++ {
+			for k := 0; k < in.Warm && !stuck; k++ {
 				t0 := time.Now()
-				_ = submit()
+				_, returned := within()
+				stuck = !returned
 				// let every warm-up call that ever returns return (only hanging calls stay behind)
 				if d := horizon(in) - time.Since(t0); d > 0 {
 					time.Sleep(d)
@@ -623,12 +725,22 @@ func runSubmit(t *testing.T, in Input) Obs {
 			}
 			rec.mu.Lock()
 			rec.warming = false
-			rec.start = time.Now()
+			if !stuck {
+				rec.start = time.Now()
+			}
+			for _, c := range cores {
+				c.reached = false
+			}
 			rec.mu.Unlock()
 		}
-		err = submit()
-		obs.Success = err == nil
+		if !stuck {
+			var returned bool
+			err, returned = within()
+			stuck = !returned
+		}
+		obs.Success = err == nil && !stuck
 		obs.Ret = millis(time.Since(rec.start))
+		obs.NoReturn = stuck
 		// let everything that ever finishes finish, then end the scenario
 		if d := horizon(in) - time.Since(rec.start); d > 0 {
 			time.Sleep(d)
@@ -639,6 +751,9 @@ func runSubmit(t *testing.T, in Input) Obs {
 		rec.mu.Unlock()
 		close(rec.release)
 		cancel()
+		for _, ch := range pending {
+			<-ch
+		}
 		synctest.Wait()
 		// canonical form
 		idx := make([]int, len(cores))
@@ -821,7 +936,26 @@ func childMain(t *testing.T) {
 		t.Fatal(err)
 	}
 	defer out.Close()
+	// A scenario takes milliseconds of real time (its time is fake).  One that does not finish within
+	// 45 s of real time is stuck where fake time cannot help (e.g. goroutines waiting for a lock held
+	// across a request that is never answered): reported as a crash of that scenario.  (Once two
+	// scenarios have been reported that way the parent shortens the limit to 5 s.)
+	limit := time.Duration(EnvInt("C08_CHILD_WATCHDOG_S", 45)) * time.Second
+	var progress atomic.Int64
+	go func() {
+		last, since := int64(-1), time.Now()
+		for {
+			time.Sleep(time.Second)
+			if p := progress.Load(); p != last {
+				last, since = p, time.Now()
+			} else if time.Since(since) > limit {
+				fmt.Fprintf(os.Stderr, "fatal error: watchdog: the scenario did not finish within %v of real time\n", limit)
+				os.Exit(3)
+			}
+		}
+	}()
 	for i := from; i < len(ins); i++ {
+		progress.Add(1)
 		obs := runCase(t, ins[i])
 		line, _ := json.Marshal(childLine{I: i, Obs: obs})
 		if _, err := out.Write(append(line, '\n')); err != nil {
@@ -829,6 +963,10 @@ func childMain(t *testing.T) {
 		}
 	}
 }
+
+// maxStuck: once this many scenarios have been reported as stuck by the watchdog the run has its
+// failing inputs; the remaining scenarios are not run (each would cost seconds of real time).
+const maxStuck = 6
 
 func runAll(t *testing.T, ins []Input) []Obs {
 	dir := os.Getenv("VERIF_OUT")
@@ -844,12 +982,16 @@ func runAll(t *testing.T, ins []Input) []Obs {
 	os.Remove(outPath)
 	res := make([]Obs, len(ins))
 	done := 0
+	stuck := 0
 	for restarts := 0; done < len(ins); restarts++ {
 		if restarts > 300 {
 			t.Fatalf("more than 300 crashes of the implementation; giving up at case %d", done)
 		}
 		cmd := exec.Command(os.Args[0], "-test.run", "^TestC08$", "-test.count=1", "-test.timeout", "3600s")
 		cmd.Env = append(os.Environ(), "C08_CHILD_INPUTS="+inPath, "C08_CHILD_FROM="+strconv.Itoa(done), "C08_CHILD_OUT="+outPath)
+		if stuck >= 2 {
+			cmd.Env = append(cmd.Env, "C08_CHILD_WATCHDOG_S=5")
+		}
 		var stderr strings.Builder
 		cmd.Stderr = &stderr
 		cmd.Stdout = &stderr
@@ -880,7 +1022,15 @@ func runAll(t *testing.T, ins []Input) []Obs {
 			}
 			// the case that was running crashed the process
 			res[done] = Obs{Panic: true, PanicAt: firstPanicLine(stderr.String())}
+			if strings.Contains(res[done].PanicAt, "watchdog:") {
+				stuck++
+			}
 			done++
+			if stuck >= maxStuck {
+				t.Logf("C08: %d scenarios stuck in real time; the %d scenarios after them are not run", stuck, len(ins)-done)
+				res = res[:done]
+				break
+			}
 		}
 	}
 	os.Remove(inPath)
@@ -936,7 +1086,14 @@ func nodeTerm(nd Node) string {
 	for _, o := range nd.Over {
 		ov = append(ov, Pair(N(o.Item), behTerm(o.Beh)))
 	}
-	return Record("n_client", clientCtor[nd.Client], "n_default", behTerm(nd.Default), "n_over", List(ov))
+	vt := func(v VBeh) string {
+		if v.Hang {
+			return None()
+		}
+		return Some(N(v.Delay))
+	}
+	return Record("n_client", clientCtor[nd.Client], "n_default", behTerm(nd.Default), "n_over", List(ov),
+		"n_ver1", vt(nd.ver(0)), "n_ver2", vt(nd.ver(1)))
 }
 
 func pairsTerm(xs [][2]int) string {
@@ -1385,7 +1542,107 @@ func genSubmit(r *Rand) Input {
 			}
 		}
 	}
+	genVersions(r, &in)
 	return in
+}
+
+// genVersions scripts the nodes' version endpoints (helpers.go serviceInfo asks every node that has
+// one for its version before submitting to it, and the error classifiers ask again): slow or hanging
+// at the request made before the payload is handed over and/or at the one made afterwards.  Drawn
+// last, so the rest of the scenario is what it would have been without it.
+func genVersions(r *Rand, in *Input) {
+	if !r.Chance(2, 5) {
+		return
+	}
+	T := in.TimeoutMs
+	nd := in.Nodes
+	var elig []int
+	for i := range nd {
+		if nd[i].hasVersionEndpoint() {
+			elig = append(elig, i)
+		}
+	}
+	if len(elig) == 0 {
+		return
+	}
+	vdelay := func() VBeh {
+		switch k := r.Intn(20); {
+		case k < 14:
+			return VBeh{Delay: uint64(r.Range(1, int(T)-1))}
+		case k < 15:
+			return VBeh{Delay: T}
+		case k < 17:
+			return VBeh{Delay: T + uint64(r.Range(1, 300))}
+		default:
+			return VBeh{Delay: uint64(r.Range(1, 20))}
+		}
+	}
+	set := func(i, phase int, v VBeh) {
+		for len(nd[i].Ver) <= phase {
+			nd[i].Ver = append(nd[i].Ver, VBeh{})
+		}
+		nd[i].Ver[phase] = v
+	}
+	// somebody else plainly accepts in time (so that success via the other nodes is at stake)
+	acceptor := func(not int) {
+		if len(nd) > 1 && r.Chance(2, 3) {
+			j := r.Intn(len(nd))
+			if j != not && !nd[j].Default.Hang {
+				nd[j].Default = Beh{Delay: uint64(r.Range(1, int(T)-1))}
+			}
+		}
+	}
+	switch fam := r.Intn(8); {
+	case fam < 3: // slow at the first version request
+		in.Tags = append(in.Tags, "version-slow")
+		j := elig[r.Intn(len(elig))]
+		set(j, 0, vdelay())
+		for _, i := range elig {
+			if i != j && r.Chance(1, 3) {
+				set(i, 0, vdelay())
+			}
+		}
+		acceptor(j)
+	case fam < 5: // one node never answers the version request
+		in.Tags = append(in.Tags, "version-hang")
+		j := elig[r.Intn(len(elig))]
+		set(j, 0, VBeh{Hang: true})
+		for _, i := range elig {
+			if i != j && r.Chance(1, 4) {
+				set(i, 0, vdelay())
+			}
+		}
+		if r.Chance(1, 2) && in.Conc < int64(len(nd)) {
+			in.Conc = int64(len(nd))
+		}
+		acceptor(j)
+	case fam < 7: // the classifier's version request is slow or never answered
+		in.Tags = append(in.Tags, "version-again")
+		for _, i := range elig {
+			if r.Chance(2, 3) {
+				if r.Chance(1, 4) {
+					set(i, 1, VBeh{Hang: true})
+				} else {
+					set(i, 1, vdelay())
+				}
+			}
+			if r.Chance(1, 4) {
+				set(i, 0, vdelay())
+			}
+		}
+	default: // anything
+		in.Tags = append(in.Tags, "version-any")
+		for _, i := range elig {
+			for ph := 0; ph < 2; ph++ {
+				switch k := r.Intn(6); {
+				case k < 1:
+					set(i, ph, VBeh{Hang: true})
+				case k < 4:
+					set(i, ph, vdelay())
+				}
+			}
+		}
+	}
 }
 
 func genScatter(r *Rand) Input {
@@ -1495,6 +1752,17 @@ func inputTags(in Input) []string {
 		return bs
 	}
 	for _, nd := range in.Nodes {
+		for ph, v := range nd.Ver {
+			if !nd.hasVersionEndpoint() {
+				break
+			}
+			switch {
+			case v.Hang:
+				add(fmt.Sprintf("hang-at-version-%d", ph+1))
+			case v.Delay > 0:
+				add(fmt.Sprintf("slow-at-version-%d", ph+1))
+			}
+		}
 		for _, b := range behs(nd) {
 			if b.Hang {
 				add("hang")
@@ -1573,6 +1841,9 @@ func nontrivial(in Input) bool {
 		if nd.Default.Hang || nd.Default.Err != nil || nd.Default.Delay >= in.TimeoutMs || len(nd.Over) > 0 {
 			return true
 		}
+		if nd.ver(0) != (VBeh{}) || nd.ver(1) != (VBeh{}) {
+			return true
+		}
 	}
 	return false
 }
@@ -1586,13 +1857,13 @@ func TestC08(t *testing.T) {
 		return
 	}
 	col := NewCollector("C08", "Check.C08",
-		"submit scenarios: kind x 1-5 scripted nodes (accept / reject with a structured error body / slow / hang, per chunk for attestations; every method fails with the context's error once its context is finished) x concurrency x payload length, run on the real multinode service in a synctest bubble; plus util.Scatter and the immediate submitter. Non-trivial = the submission passes the empty-payload guard and at least one node does something other than accept before the timeout (scatter/immediate: non-empty input); distinct by input text")
+		"submit scenarios: kind x 1-5 scripted nodes (accept / reject with a structured error body / slow / hang, per chunk for attestations; every method fails with the context's error once its context is finished; the version endpoint serviceInfo queries answers at once, late or never, before and after the payload is handed over) x concurrency x payload length, run on the real multinode service in a synctest bubble; plus util.Scatter and the immediate submitter. Non-trivial = the submission passes the empty-payload guard and at least one node does something other than answer its version request at once and accept before the timeout (scatter/immediate: non-empty input); distinct by input text")
 	n := EnvInt("VERIF_N", 800)
 	thorough := os.Getenv("VERIF_TIER") == "thorough"
 	var ins []Input
 	for _, in := range LoadInputs[Input]("C08") {
 		in.Tags = append(in.Tags, "corpus")
-		ins = append(ins, in)
+		ins = append(ins, normalise(in))
 	}
 	// common.NewRand(seed) starts at position seed of ONE splitmix sequence, so seeds n and n+1 would
 	// yield the same scenarios shifted by one; start from a hashed seed instead.
@@ -1602,9 +1873,10 @@ func TestC08(t *testing.T) {
 		if thorough && i%2 == 1 {
 			in.Trace = true
 		}
-		ins = append(ins, in)
+		ins = append(ins, normalise(in))
 	}
 	obs := runAll(t, ins)
+	ins = ins[:len(obs)]
 	for i, in := range ins {
 		col.Count("mode:" + in.Mode)
 		if in.Mode == "submit" {
@@ -1622,6 +1894,14 @@ func TestC08(t *testing.T) {
 			}
 			for _, nd := range in.Nodes {
 				col.Count("client:" + nd.Client)
+				if nd.ver(0).Hang || nd.ver(1).Hang {
+					col.Count("version:hang")
+				} else if nd.ver(0).Delay > 0 || nd.ver(1).Delay > 0 {
+					col.Count("version:slow")
+				}
+			}
+			if obs[i].NoReturn {
+				col.Count("result:no-return")
 			}
 		}
 		if obs[i].Panic {
